@@ -467,6 +467,35 @@ impl Group for Trace {
     fn oracle(&self, _ctx: &Ctx, line: &str, out: &str) -> Option<(String, String)> {
         // a later Prime sees the URI as rewritten by the earlier ones (judged on the log alone)
         let l = parse_list(out.split(' ').last()?)?;
+        // the Present extensions named on the first line, each mounted one with exactly its arguments, in line order — read off
+        // the raw body with a plain split (names that are not mounted are passed over, the ones behind them still run)
+        if l.iter().any(|e| e.starts_with("prepare") && e != "preparenone") {
+            let body = unhex(line.split(' ').nth(6)?)?;
+            if body.starts_with(b"!> ") {
+                if let Some(nl) = body.iter().position(|b| *b == b'\n') {
+                    if let Ok(first) = std::str::from_utf8(&body[3..nl]) {
+                        let mut want = Vec::new();
+                        let mut group: Vec<&str> = Vec::new();
+                        let mut flush = |group: &mut Vec<&str>| {
+                            if let Some(name) = group.first() {
+                                if *name == "m1" || *name == "m2" {
+                                    want.push(format!("present:{}({})", hex(name.as_bytes()), group[1..].iter().map(|a| hex(a.as_bytes())).collect::<Vec<_>>().join(";")));
+                                }
+                            }
+                            group.clear();
+                        };
+                        for tok in first.trim_end_matches('\r').split(' ').filter(|t| !t.is_empty()) {
+                            if tok == "&>" { flush(&mut group); } else { group.push(tok); }
+                        }
+                        flush(&mut group);
+                        let got: Vec<String> = l.iter().filter(|e| e.starts_with("present:")).cloned().collect();
+                        if got != want {
+                            return Some((format!("present:{line}"), format!("the line `{first}` names {want:?} (mounted: m1, m2), the Present extensions that ran were {got:?}")));
+                        }
+                    }
+                }
+            }
+        }
         let mut q = String::new();
         for e in l.iter().filter(|e| e.starts_with("prime")) {
             let (tag, seen) = e.trim_start_matches("prime").split_once('@')?;
